@@ -1,6 +1,7 @@
 import Driver.Util
 import Torf.Model.Handles
 import Torf.Model.Missing
+import Torf.Model.HandlesDisk
 open Lean Torf Torf.Handles
 namespace Driver.C19
 
@@ -124,10 +125,160 @@ def damagedIter (j : Json) : Except String Json := do
         jobj [("data", jopt pieceJson it.data),
               ("excs", jarr (it.excs.map fun (k, e) => jarr [jnat k, jstr (kind e)]))]))]
 
+/-! ### histories on a disk that changes between the operations (`Torf.HandlesDisk`) -/
+
+namespace D
+open Torf.HandlesDisk
+
+def errName : HandlesDisk.Err → String
+  | .value => "ValueError"
+  | .assertion => "AssertionError"
+  | .size => "VerifyFileSizeError"
+  | .readNoent => "ReadError"
+  | .readOther => "ReadError"
+  | .typeError => "TypeError"
+  | .internal => "internal"
+
+def kindName : Missing.ErrKind → String | .read => "ReadError" | .size => "VerifyFileSizeError"
+
+def itemJson (it : Missing.Item Nat) : Json :=
+  jobj [("data", jopt pieceJson it.data),
+        ("excs", jarr (it.excs.map fun (k, e) => jarr [jnat k, jstr (kindName e)]))]
+
+def outJson : HandlesDisk.Out Nat Dig → Json
+  | .items xs => jobj [("k", "items"), ("v", jarr (xs.map itemJson))]
+  | .piece p => jobj [("k", "piece"), ("v", pieceJson p)]
+  | .digest d => jobj [("k", "digest"), ("v", digJson d)]
+  | .bool b => jobj [("k", "bool"), ("v", jbool b)]
+  | .none => jobj [("k", "none")]
+  | .err e => jobj [("k", "err"), ("v", jstr (errName e))]
+
+/-- symbolic content number `cid`, `n` bytes from offset `off` -/
+def sym (cid off n : Nat) : List Nat := (List.range n).map fun k => cid * elemBase + off + k
+
+
+def optNat (j : Json) (k : String) : Option Nat :=
+  match j.getObjVal? k with
+  | .ok (.num n) => if n.exponent == 0 && n.mantissa ≥ 0 then some n.mantissa.toNat else none
+  | _ => none
+
+/-- a history step; content created by the step at position `pos` has the number `cid0 + pos`;
+    an operation may carry `cp` (content_path argument: a root) and `fault` (listed file whose first
+    read/seek in this operation raises OSError) -/
+def parseStep (flat : List Nat) (cid0 dirsize pos : Nat) (j : Json) :
+    Except String (HandlesDisk.Step Nat Dig) := do
+  let name ← getStr j "op"
+  if name == "setHashes" then
+    return .setStored (← (← getArr j "stored").mapM (parseDig flat))
+  else if name == "disk" then
+    let kind ← getStr j "kind"
+    let f ← getNat j "j"
+    let n := (getNat j "n").toOption.getD 0
+    let cid := cid0 + pos
+    match kind with
+    | "truncate" => return .disk (.truncate f n)
+    | "extend" => return .disk (.extend f (sym cid 0 n))
+    | "rewrite" => return .disk (.rewrite f (sym cid 0 n))
+    | "replace" => return .disk (.replace f (sym cid 0 n))
+    | "unlink" => return .disk (.unlink f)
+    | "mkdir" => return .disk (.mkdir f dirsize)
+    | _ => throw s!"unknown disk change {kind}"
+  else
+    return .op (optNat j "cp") (optNat j "fault") (← parseOp j)
+
+def geomD (sizes : List Nat) (L : Nat) (i : Nat) : Except HandlesDisk.Err (List Nat × Nat) :=
+  match geomArith sizes L i with
+  | .ok r => .ok r
+  | .error _ => .error .internal
+
+/-- an answer together with, for `verifyPiece`, the piece and the stored digest that were compared
+    (the harness decides equality of digests on the real bytes) -/
+def ansJson (c : HandlesDisk.Cfg Nat Dig) (d : Disk Nat) (a f : Option Nat) (x : Handles.Op) (o : Obj) : Json :=
+  let cmp : Json := match x with
+    | .verifyPiece i =>
+      match Handles.pyIndex c.stored i, (getPiece c d (c.base a) f i o).1 with
+      | some st, .ok p => jobj [("st", digJson st), ("p", pieceJson p)]
+      | _, _ => Json.null
+    | _ => Json.null
+  jobj [("o", outJson (run c d a f x o).out), ("cmp", cmp)]
+
+/-- the rows of a history, with what the harness needs to judge them: per step the model's answer
+    `m`, the specification's answer `s` (null when equal), the number of handles afterwards, `clean`
+    (no stale handle of a file the operation may read), `stale` (number of stale handles when the step
+    starts); for a disk change `open` = the object holds a handle of the target; for `verifyPiece`
+    the piece and the stored digest that were compared (`cmp`) -/
+def rowsD (c : HandlesDisk.Cfg Nat Dig) : Disk Nat → List (HandlesDisk.Step Nat Dig) → Obj → List Json
+  | _, [], _ => []
+  | d, .op a f x :: ss, o =>
+    let r := run c d a f x o
+    let s := specOut c d a x
+    let clean := cleanFor c d a x o.tbl
+    -- with stale handles, answers C19 does not forbid either: the fresh object's (same fault) and the
+    -- one of reading old inodes throughout
+    let alts := if clean then [] else [ansJson c d a f x {}, ansJson c (d.oldView o.tbl) a f x {}]
+    jobj [("m", outJson r.out), ("s", if s == r.out then Json.null else outJson s),
+          ("nopen", jnat r.obj.tbl.length), ("clean", jbool clean), ("alts", jarr alts),
+          ("stale", jnat (o.tbl.filter fun h => !h.current d).length),
+          ("cmp", (ansJson c d a f x o).getObjValD "cmp"),
+          ("scmp", (ansJson c d a Option.none x {}).getObjValD "cmp")]
+      :: rowsD c d ss r.obj
+  | d, .disk x :: ss, o =>
+    jobj [("m", outJson .none), ("s", Json.null), ("nopen", jnat o.tbl.length), ("clean", jbool true),
+          ("stale", jnat (o.tbl.filter fun h => !h.current d).length),
+          ("open", jbool (inoOf o.tbl x.target).isSome)]
+      :: rowsD c (d.apply x) ss o
+  | d, .setStored hs :: ss, o =>
+    jobj [("m", outJson .none), ("s", Json.null), ("nopen", jnat o.tbl.length), ("clean", jbool true),
+          ("stale", jnat (o.tbl.filter fun h => !h.current d).length)]
+      :: rowsD { c with stored := hs } d ss o
+
+/-- op `c19.diskHistory` : {L, sizes, cap, wrong, roots, ctor?, disk : per path (root-major)
+    "ok" | "missing" | "corrupt" | actual size, dirsize, memo?, ops} — `clean` in a row = no stale handle
+    of a path the operation reads (the fault decoration is the harness' business).  Content
+    numbers: `j` = the recorded content of file `j`, `nfiles + q` = the filler / corrupt content of
+    path `q` at the start, `nfiles + roots·nfiles + pos` = content created by step `pos` -/
+def history (j : Json) : Except String Json := do
+  let L ← getNat j "L"
+  let sizes ← getNats j "sizes"
+  let cap ← getNat j "cap"
+  let wrong := (getNats j "wrong").toOption.getD []
+  let memo := (getBool j "memo").toOption.getD false
+  let dirsize := (getNat j "dirsize").toOption.getD 0
+  let roots := (getNat j "roots").toOption.getD 1
+  let n := sizes.length
+  let files := mkFiles sizes
+  let states := (getArr j "disk").toOption.getD []
+  let ents : List (List Nat × Entry) ← (List.range (roots * n)).mapM fun q =>
+    let i := q % n
+    let sz := sizes.getD i 0
+    match states.getD q (Json.str "ok") with
+    | .str "ok" => pure (sym i 0 sz, Entry.file q)
+    | .str "missing" => pure (sym i 0 sz, Entry.absent)
+    | .str "corrupt" => pure (sym (n + q) 0 sz, Entry.file q)
+    | .num k =>
+      let k := k.mantissa.toNat
+      pure (sym i 0 (min k sz) ++ sym (n + q) 0 (k - sz), Entry.file q)
+    | _ => throw "bad disk state"
+  let d : Disk Nat := { inodes := ents.map (·.1), dir := ents.map (·.2) }
+  let cid0 := n + roots * n
+  let steps ← (← getArr j "ops").zipIdx.mapM fun (s, pos) => parseStep files.flatten cid0 dirsize pos s
+  let H : List Nat → Dig := fun p => (0, p)
+  let stored : List Dig := (chunks L files.flatten).zipIdx.map fun (p, i) =>
+    if wrong.contains i then (1, p) else (0, p)
+  let c : HandlesDisk.Cfg Nat Dig :=
+    { sizes := sizes, L := L, cap := cap, geom := geomD sizes L, H := H, stored := stored, memo := memo,
+      ctorPath := optNat j "ctor" }
+  return jobj [("rows", jarr (rowsD c d steps {})),
+               ("hyp", jbool (L > 0 && sizes.all (· > 0))),
+               ("npieces", jnat (nPieces L sizes.sum))]
+
+end D
+
 def handle (op : String) (j : Json) : Except String Json :=
   match op with
   | "c19.history" => history j
   | "c19.damagedIter" => damagedIter j
+  | "c19.diskHistory" => D.history j
   | _ => throw s!"unknown op {op}"
 
 end Driver.C19
